@@ -89,6 +89,9 @@ type Inst struct {
 	Health    []int         `json:"health,omitempty"`  // per check: 0 healthy, 1 unhealthy, 2 slow then healthy, 3 slow then unhealthy; afterwards healthy
 	Promote   int           `json:"promote,omitempty"` // 0 return at once, 1 block until ctx done, 2 work in steps polling ctx
 	DemoteDur time.Duration `json:"demote_dur,omitempty"`
+	// PromoteLinger: how long the OnPromote callback (modes 1 and 2) takes to wind down after its context
+	// was cancelled; a stop call's wait for the run's goroutines lasts that long
+	PromoteLinger time.Duration `json:"promote_linger,omitempty"`
 	NoMetrics bool          `json:"no_metrics,omitempty"`
 
 	Lat          []time.Duration `json:"lat"` // request/response latencies, consumed round-robin by this instance's store operations
@@ -156,6 +159,9 @@ type Action struct {
 
 	// start
 	NewObject bool `json:"new_object,omitempty"`
+	// Overlap (start): issued even while a stop call on the same object has not returned yet (another
+	// goroutine of the application restarts the election while the first is still inside Stop)
+	Overlap bool `json:"overlap,omitempty"`
 
 	// cancelctx: do not wait for the election to have stopped (the action is then only the cancellation)
 	NoWait bool `json:"no_wait,omitempty"`
